@@ -74,14 +74,9 @@ def showResult : Option (List Nat × St) → String
   | some (roots, st) => canon st.out roots
   | none => "error:model"
 
-/-- every admissible observation of one run: F-C04-3 applied or repaired (`deepFixed`), then every outcome of
-temporary-parent id collisions (F-C04-2; the first one is "no collision") -/
-def outcomes (deepFixed : Bool) : Option (List Nat × St) → List String
-  | some (rs, st) =>
-    let out := if deepFixed then st.out else dropDeepParent st.out
-    let cs := staleChoices out [] (subSlotsD deepFixed out)
-    (cs.take 64).map fun (ch : List (Nat × Nat)) => canon (staleParent out ch) rs
-  | none => ["error:model"]
+def showRun : Option (List Nat × St) → String
+  | some (rs, st) => canon st.out rs
+  | none => "error:model"
 
 def run (s : Sexp) : String :=
   match parseCase s with
@@ -90,20 +85,11 @@ def run (s : Sexp) : String :=
     let unmap := unmapOf c.heap
     -- several roots: one shared ToDAOState, one explicitly passed (initially empty) FromDAOState
     let roots := c.roots
-    let on := roundTrip true unmap c.heap roots
-    let off := roundTrip false unmap c.heap roots
-    -- F-C04-3 is repaired in /repo (fix commit 76e196d): only the repaired variants (`deepFixed`) are admissible now
-    let today := outcomes true on
-    let m := today.headD "error:model"
-    let mf := (outcomes true off).headD "error:model"
+    -- All recorded C04 findings are repaired in /repo: F-C04-1 (9a6f576: references resolved while an
+    -- alternatively mapped DAO is in progress are fixed again once the final object exists), F-C04-2
+    -- (453154d: FromDAOState keeps the converted DAOs alive, no id() is reused), F-C04-3 (76e196d).
+    -- The code is the copy that never memoises the intermediate (`quirk := false`): `C04_roundtrip` is the theorem.
+    let m := showRun (roundTrip false unmap c.heap roots)
     let spec := canon c.heap roots
-    let others := (dedupStrings (today.drop 1 ++ outcomes true off)).filter
-      fun x => x != m && x != mf
-    let (trig2, trig3) := match on with
-      | some (_, st) => (trigStaleParent st.out, false)
-      | none => (false, false)
-    let trig := (if trigStale unmap c.heap roots then ["F-C04-1"] else []) ++ (if trig2 then ["F-C04-2"] else [])
-      ++ (if trig3 then ["F-C04-3"] else [])
-    let alts := "".intercalate (others.zipIdx.map fun (p : String × Nat) => s!"\tmodel_s{p.2 + 1}={p.1}")
-    s!"model={m}\tmodel_fixed={mf}{alts}\tspec={spec}\ttrig={",".intercalate trig}"
+    s!"model={m}\tspec={spec}\ttrig="
 end KrroodVerif.Drive.C04
